@@ -407,7 +407,7 @@ class DerivedShape(UnshapedComponent):
         for sibling in self.parent:
             if sibling is self:
                 continue
-            elif not self and isinstance(sibling, DerivedShape):
+            elif isinstance(sibling, DerivedShape):
                 raise ValueError(
                     f"More than one ``DerivedShape`` component in {self.parent} is not allowed."
                 )
